@@ -13,6 +13,7 @@ import (
 	"strings"
 	"sync"
 	"syscall"
+	"time"
 
 	"github.com/markusressel/fan2go/internal"
 	"github.com/markusressel/fan2go/internal/configuration"
@@ -272,6 +273,7 @@ fi
 case "$k" in
   error) echo failing >&2; exit 1 ;;
   timeout) sleep 3; exit 0 ;;
+  linger) sleep 8 & echo $! >> "$d/bgpids"; echo failing >&2; exit 1 ;;   # the command fails at once, an orphaned child keeps holding stdout/stderr
   garbage) if [ "$c" = set ]; then exit 0; fi; cat "$d/garbage.$c"; exit 0 ;;
 esac
 case "$c" in
@@ -361,7 +363,7 @@ func faultsCurveHasPid(spec faultsCurve) bool {
 	return false
 }
 
-var faultsKindCoq = map[string]string{"": "FNone", "error": "FErr", "garbage": "FGarbage", "timeout": "FTimeout", "cannotstart": "FCannotStart"}
+var faultsKindCoq = map[string]string{"linger": "FTimeout", "": "FNone", "error": "FErr", "garbage": "FGarbage", "timeout": "FTimeout", "cannotstart": "FCannotStart"}
 
 // faultsPrepare creates the case directory and its scripts. It runs for ALL cases before any worker
 // forks a command: a script written while another goroutine is between fork and exec would be
@@ -481,6 +483,47 @@ func faultsRun(ctx *Ctx, seq int, in faultsIn) (faultsObs, string, []string) {
 			os.WriteFile(filepath.Join(dir, "phase"), []byte(p), 0644)
 		}
 	}
+	// every call into the controller is bounded by a watchdog: a call that does not come back is an OBSERVATION (kind 3)
+	hasLinger := false
+	for _, y := range in.Plan {
+		if y.Sensor == "linger" || y.Rpm == "linger" || y.PwmRead == "linger" || y.PwmWrite == "linger" {
+			hasLinger = true
+		}
+	}
+	limit := 45 * time.Second
+	if hasLinger {
+		limit = 4 * time.Second // a failing command with a lingering child is over after cmdWaitDelay (200 ms) per call
+	}
+	var pending chan string
+	watch := func(f func()) string {
+		res := make(chan string, 1)
+		go func() { res <- faultsCatch(f) }()
+		select {
+		case p := <-res:
+			return p
+		case <-time.After(limit):
+			pending = res
+			return "stuck"
+		}
+	}
+	killChildren := func() {
+		if b, err := os.ReadFile(filepath.Join(dir, "bgpids")); err == nil {
+			for _, f := range strings.Fields(string(b)) {
+				if pid, err := strconv.Atoi(f); err == nil && pid > 1 {
+					_ = syscall.Kill(pid, syscall.SIGKILL)
+				}
+			}
+		}
+	}
+	defer func() {
+		killChildren()
+		if pending != nil {
+			select { // the abandoned call comes back once the children are gone; do not remove its files under it
+			case <-pending:
+			case <-time.After(15 * time.Second):
+			}
+		}
+	}()
 	e.perOp = len(in.Ops) > 0
 	e.garbageSel = in.GarbageSel
 	avg0 := sensor.GetMovingAvg()
@@ -513,32 +556,35 @@ func faultsRun(ctx *Ctx, seq int, in faultsIn) (faultsObs, string, []string) {
 				return false
 			}
 			obs.Kind, obs.Cycle, obs.Panic = 2, k, p
+			if p == "stuck" {
+				obs.Kind = 3 // the controller is stuck in this call: neither regulating nor handed back
+			}
 			endCycle()
 			return true
 		}
 		setPhase("mon")
-		if crashed(faultsCatch(func() { _ = internal.VerifUpdateSensor(sensor) })) {
+		if crashed(watch(func() { _ = internal.VerifUpdateSensor(sensor) })) {
 			break
 		}
 		avgs = append(avgs, sensor.GetMovingAvg())
 		obs.Avgs = append(obs.Avgs, jF(sensor.GetMovingAvg()))
 		if fan.Supports(fans.FeatureRpmSensor) {
 			setPhase("rpm")
-			if crashed(faultsCatch(func() { c.VerifMeasureRpm() })) {
+			if crashed(watch(func() { c.VerifMeasureRpm() })) {
 				break
 			}
 		}
 		setPhase("ufs")
 		e.nPwmReads = 0
 		var uerr error
-		if crashed(faultsCatch(func() { uerr = c.UpdateFanSpeed() })) {
+		if crashed(watch(func() { uerr = c.UpdateFanSpeed() })) {
 			break
 		}
 		if uerr != nil {
 			// the control actor of Run: ErrorAndNotify, restorePwmEnabled, return
 			obs.Stalled[k] = errors.Is(uerr, controller.ErrFanStalledAtMaxPwm)
 			setPhase("restore")
-			if crashed(faultsCatch(func() { c.VerifRestore() })) {
+			if crashed(watch(func() { c.VerifRestore() })) {
 				break
 			}
 			obs.Kind, obs.Cycle = 1, k
@@ -606,7 +652,7 @@ func faultsRun(ctx *Ctx, seq int, in faultsIn) (faultsObs, string, []string) {
 	coq := cRec("mkCase", combo, dev(in.OrigMode, in.OrigPwm), dev(d0Mode, d0Pwm), cList(plan),
 		cZ(obs.Kind), cZ(obs.Cycle), dev(obs.Mode, obs.Pwm), cList(ops), cList(ocs), cBool(obs.LastW), cList(trs), cList(cycs),
 		cZ(configuration.CurrentConfig.TempRollingWindowSize), cF(avg0), cZList(temps), cList(avgsC))
-	tags := []string{"fan=" + in.Fan, "sensor=" + in.Sensor, "curve=" + in.Curve.T, "outcome=" + []string{"regulating", "stopped", "crash"}[obs.Kind]}
+	tags := []string{"fan=" + in.Fan, "sensor=" + in.Sensor, "curve=" + in.Curve.T, "outcome=" + []string{"regulating", "stopped", "crash", "stuck"}[obs.Kind]}
 	if in.Curve.T == "func" {
 		if faultsCurveHasPid(in.Curve) {
 			tags = append(tags, "func-with-pid")
@@ -757,6 +803,12 @@ func init() {
 					for _, c := range faultsCurves() {
 						combos = append(combos, comboT{f, s, c})
 					}
+				}
+			}
+			var tcombos2 []comboT
+			for _, cb := range combos {
+				if cb.fan == "cmd" || cb.sensor == "cmd" {
+					tcombos2 = append(tcombos2, cb)
 				}
 			}
 			mkIn := func(cb comboT, plan []faultsCyc) faultsIn {
@@ -990,6 +1042,21 @@ func init() {
 						}
 					}
 				}
+			}
+			// (j) a command that fails while an orphaned child of it keeps holding its stdout/stderr (cmd sensors and cmd fans):
+			//     the call must come back (after the 200 ms wait delay) with an error
+			for i := 0; i < ctx.Param("linger", 14); i++ {
+				cb := tcombos2[rng.Intn(len(tcombos2))]
+				var f faultsSpec
+				if cb.sensor == "cmd" && (cb.fan != "cmd" || rng.Bool()) {
+					f = faultsSpec{"sensor", "linger", 0}
+				} else {
+					f = faultsSpec{[]string{"pwmwrite", "rpm", "pwmread"}[rng.Intn(3)], "linger", 0}
+				}
+				plan := mkPlan([]faultsSpec{f}, []int{rng.Intn(3)})
+				in := mkIn(cb, plan[:4])
+				in.HasRpm = true
+				jobs = append(jobs, job{in, []string{"single", "lingering-child"}})
 			}
 			// (e) timeouts (2 s per command): few, on command components only
 			var tcombos []comboT
